@@ -248,7 +248,28 @@ def run(ctx):
     ctx.touch(wmh)
     iters = [bb for bb, t in wmh.calls() if call_matches(t, r"<impl \[T\]>::iter$|<impl \[common::Header\]>::iter$|<impl std::iter::IntoIterator for &'a \[T\]>::into_iter$|IntoIterator for &'a std::vec::Vec<T(, A)?>>::into_iter$")]
     nexts = [bb for bb, t in wmh.calls() if call_matches(t, r"slice::Iter<.*> as std::iter::Iterator>::next$")]
-    ok = len(iters) == 1 and len(nexts) == 1 and wmh.in_loop(nexts[0]) and not origin_has_call(wmh.origin(wmh.term(nexts[0])["args"][0]), r"::rev$|::skip|::filter|::take")
+    BAD_ADAPTOR = r"::rev$|::skip|::filter|::take|::step_by$|::cycle$|::zip$|::flat_map$|::dedup"
+    ok = len(iters) == 1 and len(nexts) == 1 and wmh.in_loop(nexts[0]) and not origin_has_call(wmh.origin(wmh.term(nexts[0])["args"][0]), BAD_ADAPTOR)
+    if not iters and not nexts:
+        # the head writer takes "anything that yields &Header" (`I: IntoIterator<Item = &Header>`): it must draw from exactly that parameter,
+        # forwards, and every caller must hand it a plain concatenation of lists in which the response's own header list occurs once
+        gi = [(bb, t) for bb, t in wmh.calls() if t.get("callee") == "std::iter::IntoIterator::into_iter" and t["args"] and wmh.origin(t["args"][0])[0] == "arg"]
+        gn = [bb for bb, t in wmh.calls() if t.get("callee") == "std::iter::Iterator::next" and t["args"]
+              and any(x[0] == "call" and len(x) > 3 and x[3] in [b_ for b_, _ in gi] for x in origin_walk(wmh.origin(t["args"][0])))]
+        if len(gi) == 1 and len(gn) == 1 and wmh.in_loop(gn[0]) and not origin_has_call(wmh.origin(wmh.term(gn[0])["args"][0]), BAD_ADAPTOR):
+            argn = wmh.origin(gi[0][1]["args"][0])[1]
+            list_fields = [x["name"] for x in facts.adt(RESP)["variants"][0]["fields"] if re.search(r"Vec<common::Header>", x["ty"])]
+            sites = list(facts.callers_of(wmh0.id))
+            ok = bool(sites) and len(list_fields) == 1
+            for h_, b_, t_ in sites:
+                if argn - 1 >= len(t_["args"]):
+                    ok = False
+                    continue
+                o_ = h_.origin(t_["args"][argn - 1])
+                own = [x for x in origin_walk(o_) if x[0] == "field" and x[2] == list_fields[0]] if list_fields else []
+                if origin_has_call(o_, BAD_ADAPTOR) or len(own) != 1:
+                    ok = False
+            nexts, iters = gn, [b_ for b_, _ in gi]
     ctx.ob("C19.5", "%s|iterates-all-in-order" % wmh.id, "headers are written by a plain forward iteration over the list", ok, "%s:%d" % (wmh.file, wmh.line))
     if nexts:
         t = wmh.term(nexts[0])
